@@ -63,6 +63,14 @@ let impl (fn : string) (a : string array) : string option =
     Some (r ^ "|" ^ r)
   | "i.lastIndexRune" ->
     Some (res_z (i_last_index_rune_str (s 0) (n 1)) ^ "|" ^ res_z (i_last_index_rune_byt (s 0) (n 1)))
+  | "Index" ->
+    Some (both (both (res_z (i_Index_str_a (s 0) (s 1))) (res_z (i_Index_str_c (s 0) (s 1))))
+               (both (res_z (i_Index_byt_a (s 0) (s 1))) (res_z (i_Index_byt_c (s 0) (s 1)))))
+  | "Contains" ->
+    let f r = res_map (fun v -> sbool (int_of_z v >= 0)) r in
+    Some (both (f (i_Index_str_a (s 0) (s 1))) (f (i_Index_byt_a (s 0) (s 1))))
+  | "i.bruteForce" -> Some (res_z (i_brute_str (s 0) (s 1)) ^ "|" ^ res_z (i_brute_byt (s 0) (s 1)))
+  | "i.rabinKarp" -> Some (res_z (i_rk_str (s 0) (s 1)) ^ "|" ^ res_z (i_rk_byt (s 0) (s 1)))
   (* unexported strategies (hooks under verif_internals): "str-result|byt-result" *)
   | "i.hasPrefixUnicode" ->
     let f r = res_map (fun (m, e) -> sbool m ^ ":" ^ sbool e) r in
